@@ -43,7 +43,9 @@ def diff_sig(pre, post, eid, trans):
                 syn = fx[0]
                 beh_x = fx[4] if len(fx) > 4 else ""
                 beh_y = fy[4] if len(fy) > 4 else ""
-                sigs.append(f"obs-changed attr={at} syntax={syn} before={beh_x or fx[-1][:16]} after={beh_y or fy[-1][:16]}")
+                dx = beh_x or ("db:" + fx[2] if len(fx) > 2 else fx[0])
+                dy = beh_y or ("db:" + fy[2] if len(fy) > 2 else fy[0])
+                sigs.append(f"obs-changed attr={at} syntax={syn} before={dx} after={dy}")
     return sigs or [f"obs-changed entry={eid} trans={trans}"]
 
 
